@@ -3,8 +3,8 @@
    cwd <path>                                                                            -> ok
    val <w|v|f> <s>      -> OK | R:DOTDOT | R:SYMLINK | R:RESOLVE | R:EXT
    res <s>              -> OK <path> | ERR NUL | ERR LOOP          (resolve of the absolute form of s)
-   st <s>               -> <T|F|R><0|1><0|1>        (exists, is_symlink, is_dir of the absolute form of s)
-   late <s>             -> 0|1
+   st <s>               -> <T|F|R><0|1|R><0|1>      (exists, is_symlink (lstat; R = raises), is_dir of the absolute form of s)
+   late <s>             -> <T|F|R><T|F|R>           (late symlink re-check of the write block, of atomic_write_octave)
    name <s>             -> 0 | 1 <file> <file>
    frozen <ref>         -> NONE | <file>
    rfrozen <cache path> <ref> <bytes=digest> ...    -> NONE | <path>
@@ -36,8 +36,9 @@ let handle l =
        | ResOk p -> "OK " ^ tok_of_path p
        | ResErr -> if has_nul t then "ERR NUL" else (match realpath rp_fuel !cur_fs [] t with RLoop -> "ERR LOOP" | ROk _ -> "ERR ?"))
   | ["st"; s] -> let p = abs_tail !cur_cwd (str_of_tok s) in
-      pr_ex (p_exists !cur_fs p) ^ bool_tok (p_is_symlink !cur_fs p) ^ bool_tok (p_is_dir !cur_fs p)
-  | ["late"; s] -> bool_tok (late_recheck !cur_fs !cur_cwd (str_of_tok s))
+      pr_ex (p_exists !cur_fs p) ^ (match p_lstat_link !cur_fs p with ExTrue -> "1" | ExFalse -> "0" | ExRaise -> "R")
+      ^ bool_tok (p_is_dir !cur_fs p)
+  | ["late"; s] -> pr_ex (late_recheck_write !cur_fs !cur_cwd (str_of_tok s)) ^ pr_ex (late_recheck_fileops !cur_fs !cur_cwd (str_of_tok s))
   | ["name"; s] -> let n = str_of_tok s in
       if name_ok n then "1 " ^ String.concat " " (List.map tok_of_str (schema_files n)) else "0"
   | ["frozen"; r] -> (match parse_frozen (str_of_tok r) with Some d -> tok_of_str (frozen_file d) | None -> "NONE")
